@@ -537,6 +537,18 @@ func (tr *Translator) quant(x *EQuant) tv {
 					continue
 				}
 			}
+			// m[k] as a trigger: the raw value lookup (the missing-key / nil-map guard is an ite, which a pattern may not contain)
+			if ix, ok := pe.(*EIndex); ok {
+				m := tr.expr(ix.X)
+				if m.ty != nil {
+					if mt, ok := m.ty.Underlying().(*types.Map); ok {
+						k := tr.expr(ix.I)
+						h, _, hs, _, _, _ := tr.f.mapParts(mt)
+						ts = append(ts, Select(Select(tr.stVar(h, hs), m.t), k.t).S)
+						continue
+					}
+				}
+			}
 			ts = append(ts, tr.expr(pe).t.S)
 		}
 		pats = append(pats, ":pattern ("+strings.Join(ts, " ")+")")
